@@ -6,7 +6,7 @@ OUT=${OUT:-build/selftest.tsv}
 mkdir -p build; : > $OUT
 list=$(mktemp)
 for f in mutants/*.diff; do echo "$f $(basename $f | cut -d- -f2) $(basename $f .diff)" >> $list; done
-for d in seeded/*/; do id=$(basename $d); also=$(python3 -c "import json,sys; print(\",\".join(json.load(open(sys.argv[1])).get(\"also\",[])))" $d/meta.json 2>/dev/null); echo "$d/patch.diff ${id%-*}${also:+,$also} $id" >> $list; done
+for d in seeded/*/; do id=$(basename $d); grep -q '"superseded"' $d/meta.json && continue; also=$(python3 -c "import json,sys; print(\",\".join(json.load(open(sys.argv[1])).get(\"also\",[])))" $d/meta.json 2>/dev/null); echo "$d/patch.diff ${id%-*}${also:+,$also} $id" >> $list; done
 one() {
   for p in $(echo $2 | tr , ' '); do
     line=$(tools/seedrun.py $1 $p quick 2>&1 | grep -E "exit=" | head -1)
